@@ -260,20 +260,27 @@ def r03_3(run):
 def r03_4(run):
     """weak-scalar preservation: a Python scalar operand must reach the NumPy kernel as a Python scalar"""
     fi = anchor_func(run, "mygrad.tensor_base.Tensor._op")
-    conv = []
-    for n in own_nodes(fi.node):
-        if isinstance(n, ast.Assign) and assigned_name(n) == "tensor_vars":
-            conv.append(n)
-    if not conv:
-        raise AnalysisError(f"{fi.short}: construction of tensor_vars not found")
-    st = conv[0]
-    gen = [x for x in ast.walk(st.value) if isinstance(x, (ast.GeneratorExp, ast.ListComp))]
-    if not gen or not isinstance(gen[0].elt, ast.IfExp):
-        raise AnalysisError(f"{fi.short}: cannot interpret the operand casting expression")
-    ife = gen[0].elt
-    var = norm(gen[0].generators[0].target)
-    test = norm(ife.test)
-    wraps = ife.body if "not" in test else ife.orelse
+    # the constructor call that wraps a non-tensor operand:  cls(<operand>, constant=True, copy=False)
+    wrapsites = []
+    for c in own_nodes(fi.node):
+        if isinstance(c, ast.Call) and isinstance(c.func, ast.Name) and c.func.id == fi.node.args.args[0].arg and len(c.args) == 1 \
+                and isinstance(c.args[0], ast.Name) and kw(c, "_creator") is None:
+            wrapsites.append(c)
+    if not wrapsites:
+        raise AnalysisError(f"{fi.short}: the call that wraps non-tensor operands as constant tensors was not found")
+    wraps = wrapsites[0]
+    st = wraps
+    guard = None
+    p_ = getattr(wraps, "_parent", None)
+    while p_ is not None and p_ is not fi.node:
+        if isinstance(p_, (ast.IfExp, ast.If)) and guard is None:
+            guard = p_
+        if isinstance(p_, ast.stmt):
+            st = p_
+            if guard is not None:
+                break
+        p_ = getattr(p_, "_parent", None)
+    test = norm(guard.test) if guard is not None else ""
     scalar_exempt = any(k in test for k in ("Number", "Real", "int", "float", "np.isscalar", "Integral"))
     ok = scalar_exempt
     run.ob("R03.4", loc(fi, st), fi.short, "Python-scalar operands reach the kernel unconverted (weak scalar)", ok,
@@ -287,13 +294,38 @@ def r03_4(run):
            "cls(var, constant=True, copy=False)" if ok else "operands are copied / cast before the kernel sees them")
 
 
+def r03_5(run):
+    """ops fix some kernel options with literals that the wrapper does not expose; those literals must be NumPy's defaults"""
+    fx = facts(run)
+    NUMPY_DEFAULTS = {"order": "'C'"}
+    n = 0
+    for c in run.project.concrete_ops():
+        m = c.methods.get("__call__")
+        if m is None:
+            continue
+        params = set(m.params())
+        for call in own_nodes(m.node):
+            if not isinstance(call, ast.Call):
+                continue
+            for k in call.keywords:
+                if k.arg in NUMPY_DEFAULTS and isinstance(k.value, ast.Constant) and k.arg not in params:
+                    n += 1
+                    ok = norm(k.value) == NUMPY_DEFAULTS[k.arg]
+                    run.ob("R03.5", loc(m, call), m.short, f"kernel option {k.arg}={norm(k.value)} hard-wired by the op", ok,
+                           f"equals NumPy's default for the namesake ({NUMPY_DEFAULTS[k.arg]})" if ok else
+                           f"differs from NumPy's default {NUMPY_DEFAULTS[k.arg]}: values/sharing differ from the NumPy function for non-C-contiguous operands")
+    run.count("hard-wired kernel options", n)
+
+
 def check(run):
     run.rule("R03.1", "UnaryUfunc/BinaryUfunc/Sequential.__call__: operands reach the kernel in order; every option reaches it under its own "
              "name unless it holds its not-given sentinel", floor=15)
     run.rule("R03.2", "no dead parameter in any op forward pass or wrapper; one-line wrappers forward every parameter", floor=150)
     run.rule("R03.3", "op forward values have no data/control dependence on TRACK_GRAPH", floor=6)
+    run.rule("R03.5", "kernel options hard-wired by an op (order=) equal NumPy's defaults", floor=2)
     run.rule("R03.4", "Tensor._op hands Python scalars to the kernel unconverted; array operands are adopted as is", floor=2)
     r03_1(run)
     r03_2(run)
     r03_3(run)
     r03_4(run)
+    r03_5(run)
